@@ -36,7 +36,26 @@ pub fn meta(prop: &str) -> Meta {
                 _ => &["credit_granted", "credit_refused", "hostile_ack"],
             },
         },
-        "C14" | "C18" => Meta {
+        "C18" => Meta {
+            level: "exploration",
+            rule: RULE,
+            real: &[
+                "repe::peer::PeerRegistry (working tree)",
+                "repe::websocket_server::WebSocketServer and its WsPeerSink, accept loop and connection tasks (working tree; family c18_ws_broadcast)",
+                "tokio runtime/sync/time (current_thread, paused clock), tokio-tungstenite / tungstenite",
+                "serde_json, beve",
+            ],
+            stub: &[
+                "thread scheduler (simkernel baton, seeded)",
+                "clock (discrete-event; tokio paused clock in the WebSocket family)",
+                "std::sync Mutex/Condvar/RwLock/mpsc in the hooked modules (simkernel wrappers over the std primitives)",
+                "TCP sockets and listeners (simulated byte pipes with capacity, delay, FIN/RST, short I/O) in the WebSocket family; capturing PeerSink stubs in c18_seq/c18_conc",
+                "HashMap hasher (fixed keys)",
+            ],
+            assumptions: &["linearizability search is bounded to <= 4 threads x 4 operations per history"],
+            expected_probes: &["concurrent_history_checked", "sequential_history_checked", "broadcast_hit_full_queue"],
+        },
+        "C14" => Meta {
             level: "exploration",
             rule: RULE,
             real: &["repe::registry::Registry / repe::peer::PeerRegistry (working tree)", "serde_json"],
